@@ -2,7 +2,8 @@
 
     Mirror of
       - /repo/tsdb/store.go [Store.DeleteSeriesWithPredicate] (per shard: optional measurement
-        shortcut taken from the measurement expression, walk over the shard's measurements in
+        shortcut taken from the measurement expression when it is an EQUALITY (repair of finding
+        measurement-neq-shortcut; [mname] is what the store extracts), walk over the shard's measurements in
         name order, per measurement the series selected by the C16 predicate matcher, then
         [Shard.DeleteSeriesRange]), [Store.WriteToShard];
       - /repo/tsdb/engine/tsm1/engine.go [deleteSeriesRange]: early exit when no TSM file
@@ -138,12 +139,13 @@ Definition ckey_bytes (defs : list sdef) (k : key) : bytes :=
   skey_bytes defs (series_of k) ++ SEP ++ [102; if (k mod 2 =? 0)%N then 48 else 49]%N.
 
 (** the [hasCacheValues] loop of the reconciliation: it walks the cache keys of the batch
-    (as they were before the delete) that have the SERIES key as a byte prefix — this includes
-    keys of OTHER series whose key extends this one — and keeps the series listed when one of
-    them still has values. *)
+    (as they were before the delete) that have the series key as a byte prefix and keeps the
+    series listed when a key OF THAT SERIES (series part of the composite key equal to the
+    series key; repair of finding series-key-prefix-of-another-kept-listed: it used to accept
+    any key that merely extends the series key) still has values. *)
 Definition has_cache_values (defs : list sdef) (sel : list N) (old c : log) (s : N) : bool :=
   existsb (fun e => let k := fst (fst e) in
-                    in_sel sel k && is_prefix (skey_bytes defs s) (ckey_bytes defs k) &&
+                    in_sel sel k && bytes_eqb (skey_bytes defs s) (cut_sep (ckey_bytes defs k)) &&
                     existsb (fun e' => N.eqb (fst (fst e')) k) c) old.
 
 Definition eng_delete (defs : list sdef) (sh : shard) (sel : list N) (lo hi : Z) : shard :=
